@@ -359,13 +359,13 @@ Qed.
 (* ---- introduction: _encrypt_blob on a conforming DH public-key envelope (C01_roundtrip_pubkey's hypotheses) ---- *)
 Lemma protected_dh (L : CryptoLaws c) ep seed kl p g r1 r2 r3 data blob :
   derived_seed c h rk rkid sd l0 l1 l2 = Ok seed -> dh_env_ok c h rk rkid l0 l1 l2 ep seed kl p g ->
-  wfb r3 = true -> 8 + 3 * kl < U32 -> len r2 = 12 ->
+  wfb r3 = true -> dh_pub_valid p (dh_public p g (OS2IP r3)) -> 8 + 3 * kl < U32 -> len r2 = 12 ->
   (forall kek kid w, new_kek_rnd c ep r3 = Ok (kek, kid) -> kw_wrap c kek r1 = Ok w -> len w < U32) ->
   (forall ct, gcm_enc c r1 r2 data = Ok ct -> len ct < U32) ->
   encrypt_blob c r1 r2 r3 data ep sid = Ok blob -> protected_blob data blob.
 Proof.
-  intros Es D Hw3 Hkl Hr2 Sw Sct He.
-  destruct D as [Dpub D0 D1 D2 Dr Da Dp Dsa Drsa Dpr Dprb Dpp Dkl Dfp Dfg Dy Dkey Dn].
+  intros Es D Hw3 Vx Hkl Hr2 Sw Sct He.
+  destruct D as [Dpub D0 D1 D2 Dr Da Dp Dsa Drsa Dpr Dprb Dpp Dkl Dfp Dfg Dy Dkey Dn Dsp Dgrp Vy].
   set (top := root_top c h rk rkid sd l0).
   assert (A : forall e', env_ok e' -> covers (env_of e') l1 l2 ->
             exists kid, new_kek c (fun _ => r3) ep =
@@ -374,11 +374,12 @@ Proof.
                                            ffk_public_key := dh_public p g (OS2IP r3) |}) /\
               get_kek c e' kid = Ok (kek_dh c h p kl (dh_public p g (OS2IP (kdf c h seed KDS_SERVICE (lit16z "DH") (bytes_of_bits (gke_priv_len ep))))) (OS2IP r3))).
   { intros e' He' Hcov. pose proof (env_ok_hash c h rk rkid sd l0 Hhash e' He') as Hh'.
-    destruct He' as [Hp' El' Er' _ _ Hc' _ Esa' Epr'].
+    destruct He' as [Hp' El' Er' _ _ Hc' _ Esa' Epr' Esp'].
     pose proof (agree_dh c h top e' ep (fun _ => r3) seed kl p g Hh' (fields_hash h rk Hhash ep Da Dp) Hp' Dpub) as A.
     rewrite D0, D1, D2, Dr in A. unfold KDFof in A. rewrite D0, Dr in A.
-    specialize (A El' Er' ltac:(congruence) Dsa ltac:(congruence) Dprb Hl1 Hl2 Hc' Hcov Es Dpp Dkl Dfp Dfg). cbv zeta in A.
-    destruct (A Dy Hw3 Dkey) as (kid & En & Ek & Eg & Eq). exists kid. rewrite Eq in Eg. auto. }
+    specialize (A El' Er' ltac:(congruence) Dsa ltac:(congruence) Dprb Hl1 Hl2 Hc' Hcov Es Dpp Dkl Dfp Dfg).
+    rewrite Esp', Dsp in A. specialize (A Dgrp Dgrp). cbv zeta in A.
+    destruct (A Dy Hw3 Vy Vx Dkey) as (kid & En & Ek & Eg & Eq). exists kid. rewrite Eq in Eg. auto. }
   destruct (get_key_ok c h rk rkid sd l0 Hhash Halg Hl0 (cc_load cc_empty rkid rk) l1 l2) as (er & _ & _ & Her & Hcovr & _ & _); auto.
   { apply cache_ok_fresh; [cbn [cc_load cc_roots cc_find_root]; rewrite beqb_refl; reflexivity|reflexivity]. }
   destruct (A er Her Hcovr) as (kid & En & Ek & _).
@@ -407,7 +408,7 @@ Proof.
   apply (protected_any_mode ep kek kid r1 r2 r3 data blob D0 D1 D2 Dr Dn En); auto.
   - apply (Ski _ _ En).
   - intros e' He' Hcov. pose proof (env_ok_hash c h rk rkid sd l0 Hhash e' He') as Hh'.
-    destruct He' as [Hp' El' Er' _ _ Hc' _ Esa' Epr'].
+    destruct He' as [Hp' El' Er' _ _ Hc' _ Esa' Epr' _].
     pose proof (agree_ecdh c L h (root_top c h rk rkid sd l0) e' ep (fun _ => r3) seed alg algz cv kl Ax Ay kek kid Hh' (fields_hash h rk Hhash ep Da Dp) Hp' Dpub) as A.
     rewrite D0, D1, D2, Dr in A. unfold KDFof in A. rewrite D0, Dr in A.
     specialize (A El' Er' ltac:(congruence) Dsa Dnd Dec Dz ltac:(congruence) Dprb Hl1 Hl2 Hc' Hcov Es). cbv zeta in A.
@@ -421,7 +422,8 @@ Inductive protect_env_ok (e : envelope) (r1 r3 : bytes) : Prop :=
 | PE_seed seed : kdf_nonempty c -> derived_seed c h rk rkid sd l0 l1 l2 = Ok seed -> seed_env_ok e -> len r3 = 32 ->
     (forall w, kw_wrap c (kek_nonce c h seed r3) r1 = Ok w -> len w < U32) -> protect_env_ok e r1 r3
 | PE_dh seed kl p g : derived_seed c h rk rkid sd l0 l1 l2 = Ok seed -> dh_env_ok c h rk rkid l0 l1 l2 e seed kl p g ->
-    wfb r3 = true -> 8 + 3 * kl < U32 ->
+    wfb r3 = true -> dh_pub_valid p (dh_public p g (OS2IP r3)) ->    (* the ephemeral public value is a valid group element (D16) *)
+    8 + 3 * kl < U32 ->
     (forall kek kid w, new_kek_rnd c e r3 = Ok (kek, kid) -> kw_wrap c kek r1 = Ok w -> len w < U32) -> protect_env_ok e r1 r3
 | PE_ecdh seed alg algz cv kl Ax Ay : derived_seed c h rk rkid sd l0 l1 l2 = Ok seed ->
     ecdh_env_ok c h rk rkid l0 l1 l2 e seed alg algz cv kl Ax Ay ->
@@ -432,9 +434,9 @@ Lemma protected_by_envelope (L : CryptoLaws c) e r1 r2 r3 data blob :
   protect_env_ok e r1 r3 -> len r2 = 12 -> (forall ct, gcm_enc c r1 r2 data = Ok ct -> len ct < U32) ->
   encrypt_blob c r1 r2 r3 data e sid = Ok blob -> protected_blob data blob.
 Proof.
-  intros [seed Hne Es Hse Hr3 Sw|seed kl p g Es D Hw3 Hkl Sw|seed alg algz cv kl Ax Ay Es D Ski Sw] Hr2 Sct He.
+  intros [seed Hne Es Hse Hr3 Sw|seed kl p g Es D Hw3 Vx Hkl Sw|seed alg algz cv kl Ax Ay Es D Ski Sw] Hr2 Sct He.
   - exact (protected_seed e seed r1 r2 r3 data blob Hne Hse Es Hr2 Hr3 Sw Sct He).
-  - exact (protected_dh L e seed kl p g r1 r2 r3 data blob Es D Hw3 Hkl Hr2 Sw Sct He).
+  - exact (protected_dh L e seed kl p g r1 r2 r3 data blob Es D Hw3 Vx Hkl Hr2 Sw Sct He).
   - exact (protected_ecdh L e seed alg algz cv kl Ax Ay r1 r2 r3 data blob Es D Hr2 Ski Sw Sct He).
 Qed.
 
@@ -650,7 +652,8 @@ Definition exc_k1_30 : bytes :=
   unw (K1 (kdfK symg SHA512 C01.ex_rkid 361) (root_top symg SHA512 C01.ex_rk C01.ex_rkid C01.ex_sd 361) 30).
 Definition exc_env : envelope :=
   {| gke_version := 1; gke_flags := 2; gke_l0 := 361; gke_l1 := 31; gke_l2 := 23; gke_rkid := C01.ex_rkid;
-     gke_kdf_alg := STR_KDF_ALG; gke_kdf_params := KekExamples.ex_kdf_params; gke_secret_alg := STR_DH; gke_secret_params := [];
+     gke_kdf_alg := STR_KDF_ALG; gke_kdf_params := KekExamples.ex_kdf_params; gke_secret_alg := STR_DH;
+     gke_secret_params := KekExamples.ex_sp 2;      (* the root key's secret agreement parameters (env_ok.eo_sparams) *)
      gke_priv_len := 512; gke_pub_len := 2048; gke_domain := [100]; gke_forest := [102; 46; 103];
      gke_l1_key := exc_k1_30; gke_l2_key := ex_pk_seed |}.
 Definition exc_out : bytes := unw (GroupKeyEnvelope_pack exc_env).
@@ -788,6 +791,7 @@ Proof.
   - vm_compute. reflexivity.
   - exact ex_dh_env_ok.
   - vm_compute. reflexivity.
+  - exact ex_r3_pub_valid.
   - unfold U32. lia.
   - intros kek kid w En Ew. vm_lhs_in En. apply Ok_inj in En. apply (f_equal fst) in En. cbn [fst] in En. subst kek.
     vm_lhs_in Ew. apply Ok_inj in Ew. subst w. vm_compute. reflexivity.
